@@ -112,8 +112,8 @@ fn main() {
       check.absorb("E4x", out);
       let t_x = ctx.wall();
       // E5: a continuously registered key re-registered under concurrent resolution
-      let e5_cases = dev("IOCX_E5_CASES", tier.pick(480u64, 24_000u64));
-      let max_rounds = tier.pick(16usize, 40usize);
+      let e5_cases = dev("IOCX_E5_CASES", tier.pick(320u64, 24_000u64));
+      let max_rounds = tier.pick(10usize, 40usize);
       let out = vcore::drive(&ctx, &check.findings, 4, e5_cases, move || rereg::strategy(max_rounds), |s| rereg::execute(s, 1));
       check.absorb("E5", out);
       let t_5 = ctx.wall();
@@ -149,9 +149,9 @@ fn main() {
       check.require_class("E1:confusable_pair_both_registered", if q { 2_000 } else { 100_000 });
       check.require_class("E1:confusable_pair:local", if q { 300 } else { 15_000 });
       check.require_class("E1:name:empty", if q { 1_000 } else { 50_000 });
-      check.require_class("E5:resolution_ended_during_a_re_registration", if q { 300 } else { 15_000 });
-      check.require_class("E5:resolution_inside_teardown_of_replaced_registration", if q { 100 } else { 5_000 });
-      check.require_class("E5:key:concrete:confusable_name", if q { 40 } else { 2_000 });
+      check.require_class("E5:resolution_ended_during_a_re_registration", if q { 200 } else { 15_000 });
+      check.require_class("E5:resolution_inside_teardown_of_replaced_registration", if q { 60 } else { 5_000 });
+      check.require_class("E5:key:concrete:confusable_name", if q { 25 } else { 2_000 });
       // cross-thread cycles: executed = passed + excluded by the open finding
       let x_done = check.stats.classes.get("E4x").copied().unwrap_or(0) + check.stats.excluded.get("iocx-F2-cross-thread-cycle-deadlocks").copied().unwrap_or(0);
       if x_done < x_cases / 2 {
